@@ -13,7 +13,7 @@ from props import _devmem_memunit as mu
 
 ID = "C09"
 MODULE = "DaliVerif.Props.C09"
-EXES = ["m_memseq"]
+EXES = ["m_memseq", "m_memval"]
 GEN = True
 THEOREMS = ["readRaw_spec", "readRaw_absent", "readRaw_faults", "readAllLoop_spec", "readAll_restores", "readAll_spec_unlatched", "fromList_spec",
             "readAll_spec", "tables_ok"]
@@ -51,6 +51,12 @@ def interpret(cls, raw):
     return cls.check_raw(raw) or cls.raw_to_value(raw)
 
 
+# (value class, raw bytes the specification unit delivered, what read()/read_all() reported): judged at the end
+# against the REFERENCE interpretation of the value (Spec.Mem.interpret via m_memval), so that "interpreted by that
+# value's rules" is checked against the rules and not against the library's own interpretation
+PENDING = []
+
+
 def run_read(ls, sc):
     """one lock-step run of read_raw / read / read_all.  returns (end, res, badop, trace, extra_violation)"""
     lines = [mu.unit_line(sc["unit"])]
@@ -77,6 +83,7 @@ def run_read(ls, sc):
                 raw = bytes(int(t[3][5:]) for t in trace if t[0] == "ReadMemoryLocation" and t[3].startswith("byte"))
                 end = "ok b:" + ",".join(str(x) for x in raw)
                 want = interpret(v, raw)
+                PENDING.append((v, raw, box[0], sc))
                 if box[0] != want or type(box[0]) is not type(want):
                     extra = ("read != interpret(read_raw)", repr(want), repr(box[0]))
         res = ls.finish(end)
@@ -104,6 +111,7 @@ def run_read(ls, sc):
                 if nm in by_name:
                     want = interpret(by_name[nm], raw)
                     got = box[0][by_name[nm]]
+                    PENDING.append((by_name[nm], raw, got, sc))
                     if got != want or type(got) is not type(want):
                         extra = ("read_all[%s] != interpret(snapshot bytes)" % nm, repr(want), repr(got))
         return end, res, badop, trace, extra
@@ -134,11 +142,45 @@ def fault_runs(ls, corr, suite, sc, key, trace, only_reads=True, limit=None, rng
 
 
 def correspond(ctx, corr):
+    del PENDING[:]
     ls = LockStep("m_memseq")
     try:
         _correspond(ctx, corr, ctx.rng, ctx.thorough, ls)
     finally:
         ls.close()
+    judge_interpretations(corr)
+
+
+def judge_interpretations(corr):
+    """every value reported by read()/read_all() vs the reference interpretation of the delivered bytes"""
+    from props import c11
+    from common import Model
+    _plug, _bs, vals = c11.table()
+    by_cls = {cls: d for cls, d in vals}
+    seen, req, items = set(), [], []
+    for cls, raw, got, sc in PENDING:
+        d = by_cls.get(cls)
+        if d is None or len(raw) != len(d["locs"]):
+            continue
+        k = (cls, bytes(raw))
+        if k in seen:
+            continue
+        seen.add(k)
+        req.append("spec interp %s %s %s" % (d["bank"], d["name"], c11.hx(raw)))
+        items.append((d, raw, c11.canon(got), sc))
+    if not req:
+        return
+    ans = Model("m_memval").batch(req)
+    bad = 0
+    for a, (d, raw, got, sc) in zip(ans, items):
+        if a != got:
+            bad += 1
+            if bad <= 5:
+                corr.violate("%s/%s:interpretation" % (d["bank"], d["name"]),
+                             {"value": d["name"], "bank": d["bank"], "raw": c11.hx(raw), "call": sc.get("call")},
+                             a, got, "the value reported by read/read_all differs from the value's rules "
+                             "(reference interpretation of the bytes the unit holds)")
+    corr.count("interpretation_vs_reference", len(req))
 
 
 def _correspond(ctx, corr, rng, T, ls):
@@ -171,6 +213,46 @@ def _correspond(ctx, corr, rng, T, ls):
     corr.exhaustive["read_raw: every multi-location value x every last location 0..255"] = True
     corr.exhaustive["images / holes / faults / read_all suites (sampled)"] = False
     corr.sample({"suite": suite, "value": vk, "last": last, "outcome": end})
+
+    # ---- read: the value's own rules at their boundaries (all-ones, all-ones-1, sign, every scale byte,
+    # min/max +-1, NUL / non-ASCII ...): the bytes come from C11's boundary generator, the verdict from the
+    # reference interpretation (judge_interpretations) --------------------------------------------------
+    from props import c11
+    _plug, _bs, c11vals = c11.table()
+    c11_by_cls = {cls: d for cls, d in c11vals}
+    suite = "read_value_rule_boundaries"
+    n = 0
+    for key, b, v in vals:
+        d = c11_by_cls.get(v)
+        if d is None:
+            continue
+        vk = key + "." + v.name
+        locs = [l.address for l in v.locations]
+        raws, _ex = c11.raws_for(v, d, rng, False)
+        raws = list(raws)
+        if len(raws) > (80 if T else 30):
+            # stratified: one raw string per distinct leading byte (scale bytes, sign bytes, …) and per
+            # distinct trailing byte, then a random remainder
+            groups = {}
+            for r in raws:
+                groups.setdefault(("head", r[0]), r)
+                groups.setdefault(("tail", r[-1]), r)
+            keep = list(groups.values())
+            rest = [r for r in raws if r not in keep]
+            room = max(0, (80 if T else 30) - len(keep))
+            raws = keep[:120] + rng.sample(rest, min(room, len(rest)))
+        for raw in raws:
+            if len(raw) != len(locs):
+                continue
+            arg = rng.choice(["g", "d"])
+            a = rng.randrange(64)
+            u = mu.mk_unit(b, rng, kind="random", dev=(arg == "d"), addr=a, last=255)
+            for la, byte in zip(locs, raw):
+                u["cells"][la] = u["cells"][la][0] + str(byte)
+            sc = {"unit": u, "call": {"kind": "read", "arg": arg, "a": a, "value": vk}}
+            end, trace = one(ls, corr, suite, sc, "read:rules")
+            n += 1
+    corr.count(suite, n)
 
     # ---- read_raw / read: images, holes, mismatches, faults --------------------------------------
     suite = "read_images_holes"
